@@ -419,9 +419,62 @@ fn learned_low_rank_then_suffix(run: &Run) {
     run.require_label("list-longer-than-9-with-a-learned-base", 200);
 }
 
+/// The user's auto-correct list puts arbitrary text at the head of a list: ASCII that is transliterated, Bengali,
+/// an emoji, a symbol, an empty string.  For a few words x such values x the option sets with and without ANSI and
+/// English, EVERY candidate index is learned in turn and the word typed again (and with a closing punctuation key):
+/// every rendering gets the full read-out.
+fn user_values_learned(run: &Run) {
+    let words = ["hasi", "abc", "ami"];
+    let vals = ["kkk", "\u{1F600}", "\u{09AC}\u{09BE}\u{0982}\u{09B2}\u{09BE}", "\u{2764}\u{FE0F} ok", "", "a:b"];
+    let optsets = ["s", "se", "sa", "sea", "sq"];
+    let mut items = vec![];
+    for w in 0..words.len() {
+        for v in 0..vals.len() {
+            for o in 0..optsets.len() {
+                items.push((w, v, o));
+            }
+        }
+    }
+    run.exhaustive(
+        "user-auto-correct-values-learned-at-every-index",
+        &items,
+        |_| (),
+        |&(w, v, o), st, _| {
+            let (word, val, opts) = (words[w], vals[v], Opts::parse(optsets[o]));
+            for idx in 0..12usize {
+                let case = || json!({"opts": opts.letters(), "user_value_learned": {"word": word, "value": val, "index": idx}});
+                let pf = |p: crate::driver::PanicInfo| Failure::new(panic_kind(&p), p.to_string(), case());
+                let sb = Sandbox::new();
+                std::fs::write(sb.autocorrect_file(), json!({ word: val }).to_string()).expect("user ac");
+                let ctx = Ctx::new(opts, &sb).map_err(pf)?;
+                let l = ctx.type_frontend(word).map_err(pf)?.unwrap();
+                if l.lonely || idx >= l.cands.len() {
+                    break;
+                }
+                ctx.commit(idx).map_err(pf)?;
+                for text in [word.to_string(), format!("{word}."), format!("({word})")] {
+                    let (mut sel, mut typed) = (0u8, String::new());
+                    for ch in text.chars() {
+                        typed.push(ch);
+                        let r = ctx.ch(ch, sel).map_err(pf)?;
+                        st.evals(1);
+                        check_suggestion(run, st, &r, &opts, Some(ch), sel, Some(&typed), &case)?;
+                        sel = if r.lonely { 0 } else { r.sel.min(255) as u8 };
+                    }
+                    ctx.finish().map_err(pf)?;
+                }
+                st.label("user-value-learned-and-retyped");
+            }
+            Ok(())
+        },
+    );
+    run.require_label("user-value-learned-and-retyped", 300);
+}
+
 pub fn run(run: &Run) {
     fixed_short_sequences(run);
     learned_low_rank_then_suffix(run);
+    user_values_learned(run);
     sweep(run);
     let (shards, cases) = match run.tier {
         Tier::Quick => (16, 600),
@@ -443,6 +496,30 @@ pub fn run(run: &Run) {
 pub fn replay(run: &Run, case: &Value) -> Result<(), Failure> {
     let mut st = Stats::new();
     let opts = Opts::parse(case["opts"].as_str().unwrap_or_default());
+    if let Some(u) = case.get("user_value_learned") {
+        let pf = |p: crate::driver::PanicInfo| Failure::new(panic_kind(&p), p.to_string(), case.clone());
+        let (word, val, idx) = (u["word"].as_str().unwrap_or_default(), u["value"].as_str().unwrap_or_default(), u["index"].as_u64().unwrap_or(0) as usize);
+        let sb = Sandbox::new();
+        std::fs::write(sb.autocorrect_file(), json!({ word: val }).to_string()).expect("user ac");
+        let ctx = Ctx::new(opts, &sb).map_err(pf)?;
+        let l = ctx.type_frontend(word).map_err(pf)?.unwrap();
+        if idx < l.cands.len() {
+            ctx.commit(idx).map_err(pf)?;
+        } else {
+            ctx.finish().map_err(pf)?;
+        }
+        for text in [word.to_string(), format!("{word}."), format!("({word})")] {
+            let (mut sel, mut typed) = (0u8, String::new());
+            for ch in text.chars() {
+                typed.push(ch);
+                let r = ctx.ch(ch, sel).map_err(pf)?;
+                check_suggestion(run, &mut st, &r, &opts, Some(ch), sel, Some(&typed), &|| case.clone())?;
+                sel = if r.lonely { 0 } else { r.sel.min(255) as u8 };
+            }
+            ctx.finish().map_err(pf)?;
+        }
+        return Ok(());
+    }
     if let Some(ll) = case.get("learned_low_rank") {
         let pf = |p: crate::driver::PanicInfo| Failure::new(panic_kind(&p), p.to_string(), case.clone());
         let (base, idx, s) = (ll["base"].as_str().unwrap_or_default(), ll["index"].as_u64().unwrap_or(0) as usize, ll["suffix"].as_str().unwrap_or_default());
